@@ -81,12 +81,15 @@ class FrameCollector:
         self.__has_time_exceeded = False
         self.__source = source
         self.__frame = frame
+        # the time limit is this tracepoint's own: measured from the start of ITS collection, not from the trace event
+        # (else a slow tracepoint leaves the next tracepoint of the same line with no time, and so no variables)
+        self.__started = time_ns()
 
     def __time_exceeded(self) -> bool:
         if self.__has_time_exceeded:
             return self.__has_time_exceeded
 
-        duration = (time_ns() - self.__source.ts) / 1000000  # make duration ms not ns
+        duration = (time_ns() - self.__started) / 1000000  # make duration ms not ns
         self.__has_time_exceeded = duration > self.__source.max_tp_process_time
         return self.__has_time_exceeded
 
